@@ -212,15 +212,30 @@ def handler(ctx, model, nb):
     ctx.check("C05.handler", nb, lp, norm(lp.iter) == "self.catchexprs",
               "catch clauses are not tried in list order over self.catchexprs", site="clauses in list order")
     tgt = [norm(x) for x in lp.target.elts] if isinstance(lp.target, ast.Tuple) else []
-    ok = len(tgt) == 2 and len(lp.body) == 1 and isinstance(lp.body[0], ast.If)
+    ok = len(tgt) == 2
     if ok:
+        from ..partial import prune
         err, expr = tgt
-        test = norm(lp.body[0].test)
-        want = {f"not {err} or {evar}.value == {err}.evaluate(environment)",
-                f"{err} is None or {evar}.value == {err}.evaluate(environment)",
-                f"not {err} or {err}.evaluate(environment) == {evar}.value"}
-        ok = test in want and [norm(s) for s in lp.body[0].body] == [f"return {expr}.evaluate(environment)"] \
-            and not lp.body[0].orelse
+        envp = nb.params[1]
+        eq_forms = (f"{evar}.value == {err}.evaluate({envp})", f"{err}.evaluate({envp}) == {evar}.value")
+
+        def outcome(has_value, equal):
+            """what one iteration does for a clause with / without a catch value whose comparison gives `equal`
+            (None: the comparison must not be needed)"""
+            known = {err: has_value, f"{err} is None": not has_value, f"{err} is not None": has_value}
+            if equal is not None:
+                for t_ in eq_forms:
+                    known[t_] = equal
+            stmts, _ = prune(lp.body, known)
+            for st in stmts:
+                if isinstance(st, ast.Return):
+                    return "handler" if norm(st.value) == f"{expr}.evaluate({envp})" else "other"
+                if isinstance(st, (ast.If, ast.For, ast.While, ast.Try, ast.Raise, ast.Break, ast.Continue)):
+                    return "undecided"
+            return "next"
+
+        got = (outcome(False, None), outcome(True, True), outcome(True, False))
+        ok = got == ("handler", "handler", "next")
     ctx.check("C05.handler", nb, lp.body[0] if lp.body else lp, ok,
               "a clause is not selected by `not err or e.value == err.evaluate(environment)` (value equality, "
               "evaluated when the error arrives) with the clause's result returned",
